@@ -63,3 +63,10 @@ TEXT["C09"] = {
     "note": "trusts the harness SHA-256 and tag strings (harness/src/{sha,ast}.rs)",
     "technique": "reference-model monitor (from-scratch Merkle hasher) across node kinds and conversions",
 }
+TEXT["C01"] = {
+    "level": ("Tens of thousands (thorough: millions) of generated programs with every node kind and sharing pattern are round-tripped at redemption and commitment time and compared node by node; "
+              "the byte strings are additionally read by an independent bit-level parser, so an encoder and decoder that are wrong in the same way are still caught."),
+    "design_ref": "DESIGN.md section 5, C01",
+    "note": "trusts the harness's program parser (harness/src/enc.rs), inference and value model",
+    "technique": "round-trip monitor with an independent bit-level parser as reference model",
+}
